@@ -1,0 +1,11 @@
+//go:build verif
+
+package blobserver
+
+// VerifResetHubs forgets all per-storage blob hubs, so that state keyed by
+// storage identity does not leak from one explored execution into the next.
+func VerifResetHubs() {
+	hubmu.Lock()
+	defer hubmu.Unlock()
+	stohub = map[any]BlobHub{}
+}
